@@ -1248,7 +1248,13 @@ class ValueObject(Value):
         return self.value == other.value
 
     def __lt__(self, other):
-        return str(self) < str(other)
+        mine, theirs = str(self), str(other)
+        if mine != theirs or not isinstance(other, ValueObject):
+            return mine < theirs
+        # objects that differ only in what their text does not show (hidden
+        # members such as _proto_) still need a definite order, or a set of
+        # them is enumerated in the order of the host's hash table
+        return sorted(self.value.items()) < sorted(other.value.items())
 
     def __repr__(self):
         fn = self.resolveItem("_str_")
